@@ -364,12 +364,17 @@ def oracle(case, thorough=False):
             db = lab.fresh_copy()
             c = {'n': 0, 'log': []}
             raised = False
+            held = None
             try:
                 lab.run_op(make_handler(k, c, exc=exc))
-            except (Injected, InjectedBase):
+            except (Injected, InjectedBase) as e:
                 raised = True
+                # the caller may still hold the exception (and with it the frames of the failed
+                # call) while it goes on: a retry inside `except`, pytest.raises, a REPL
+                held = e
             r = after_fault(db, f'progress k={k}/{K} ({c.get("fired_in")}) {exc.__name__}',
                             raised, in_close=c.get('fired_in') == 'close')
+            del held
             note('progress' if exc is Injected else 'progress-baseexception', r)
             if len(out) > 6:
                 return out
